@@ -1271,8 +1271,131 @@ fn run_sub(c: &Case) -> Obs {
     Obs::ok(obs, s.seq.len() >= 2).with_verdict(v)
 }
 
+
+// -------------------------------------------------------------------------------------------
+// `lz`: every lazy accessor of bam::RecordRef::new(body) on an arbitrary body, each under its own
+// panic guard -- the observation of the Coq model NV.Bam.Lazy.lazy_view_of (panics included)
+
+/// the recorded class `lazy-cigar-cg-array-not-u32-unreachable`, decided from the bytes alone by an
+/// independent walk: the stored CIGAR is the placeholder kSmN (k = l_seq) and the first CG field of
+/// type B in the data block has a raw element length that is not a multiple of 4.
+fn cg_array_not_whole_words(body: &[u8]) -> bool {
+    if body.len() < 32 {
+        return false;
+    }
+    let lname = body[8] as usize;
+    let nops = u16::from_le_bytes([body[12], body[13]]) as usize;
+    let lseq = u32::from_le_bytes([body[16], body[17], body[18], body[19]]) as usize;
+    let c0 = 32 + lname;
+    let d0 = c0 + 4 * nops + lseq.div_ceil(2) + lseq;
+    if nops != 2 || body.len() < d0 {
+        return false;
+    }
+    let w0 = u32::from_le_bytes(body[c0..c0 + 4].try_into().unwrap());
+    let w1 = u32::from_le_bytes(body[c0 + 4..c0 + 8].try_into().unwrap());
+    if w0 & 15 != 4 || (w0 >> 4) as usize != lseq || w1 & 15 != 3 {
+        return false;
+    }
+    let mut d = &body[d0..];
+    while d.len() >= 3 {
+        let (tag, ty) = ([d[0], d[1]], d[2]);
+        d = &d[3..];
+        let width = |t: u8| match t {
+            b'A' | b'c' | b'C' => Some(1usize),
+            b's' | b'S' => Some(2),
+            b'i' | b'I' | b'f' => Some(4),
+            _ => None,
+        };
+        match ty {
+            b'B' => {
+                if d.len() < 5 {
+                    return false;
+                }
+                let Some(w) = width(d[0]).filter(|_| d[0] != b'A') else { return false };
+                let n = u32::from_le_bytes([d[1], d[2], d[3], d[4]]) as usize;
+                let Some(len) = n.checked_mul(w).filter(|l| *l <= d.len() - 5) else { return false };
+                if tag == CG {
+                    return len % 4 != 0;
+                }
+                d = &d[5 + len..];
+            }
+            b'Z' | b'H' => match d.iter().position(|b| *b == 0) {
+                Some(i) => d = &d[i + 1..],
+                None => return false,
+            },
+            t => match width(t) {
+                Some(w) if d.len() >= w => d = &d[w..],
+                _ => return false,
+            },
+        }
+    }
+    false
+}
+
+fn run_lz(c: &Case) -> Obs {
+    let body = c.b(0);
+    if bam::RecordRef::new(&body).is_none() {
+        return Obs::ok("short", false);
+    }
+    fn g<T>(f: impl FnOnce() -> T) -> Option<T> {
+        match guarded(std::panic::AssertUnwindSafe(f)) {
+            Outcome::Done(v) => Some(v),
+            Outcome::Panicked(_) => None,
+        }
+    }
+    let rr = || bam::RecordRef::new(&body).unwrap();
+    let p = |o: Option<String>| o.unwrap_or_else(|| "P".to_string());
+    let id = |x: Option<io::Result<usize>>| match x {
+        None => "-".to_string(),
+        Some(Ok(n)) => n.to_string(),
+        Some(Err(_)) => "Err".to_string(),
+    };
+    let ps = |x: Option<io::Result<Position>>| match x {
+        None => "-".to_string(),
+        Some(Ok(n)) => usize::from(n).to_string(),
+        Some(Err(_)) => "Err".to_string(),
+    };
+    let fields: Vec<(&str, Option<String>)> = vec![
+        ("name", g(|| rr().name().map(|n| hex(n)).unwrap_or_else(|| "-".into()))),
+        ("flags", g(|| rr().flags().bits().to_string())),
+        ("rid", g(|| id(rr().reference_sequence_id()))),
+        ("pos", g(|| ps(rr().alignment_start()))),
+        ("mapq", g(|| rr().mapping_quality().map(|q| u8::from(q).to_string()).unwrap_or_else(|| "-".into()))),
+        ("mrid", g(|| id(rr().mate_reference_sequence_id()))),
+        ("mpos", g(|| ps(rr().mate_alignment_start()))),
+        ("tlen", g(|| rr().template_length().to_string())),
+        (
+            "cigar",
+            g(|| match rr().cigar().iter().collect::<io::Result<Vec<Op>>>() {
+                Ok(ops) => fmt_cigar_plain(&ops.iter().map(|o| (code_of(o.kind()), o.len())).collect::<Vec<_>>()),
+                Err(_) => "Err".to_string(),
+            }),
+        ),
+        ("seq", g(|| hex(&rr().sequence().iter().collect::<Vec<u8>>()))),
+        ("qual", g(|| hex(rr().quality_scores().as_bytes()))),
+        ("data", g(|| hex(rr().data().as_bytes()))),
+    ];
+    let panicked: Vec<&str> = fields.iter().filter(|(_, v)| v.is_none()).map(|(n, _)| *n).collect();
+    let obs = short_or_digest(fields.iter().map(|(_, v)| p(v.clone())).collect::<Vec<_>>().join(" "));
+    // the reader's validate(): bam::io::Reader::read_record accepts the block
+    let mut block = (body.len() as u32).to_le_bytes().to_vec();
+    block.extend_from_slice(&body);
+    let validated = matches!(guarded(std::panic::AssertUnwindSafe(|| read_raw_lazy(&block))), Outcome::Done(Ok(_)));
+    let v: V = if validated && !panicked.is_empty() {
+        if panicked == ["cigar"] && cg_array_not_whole_words(&body) {
+            bad("lazy-cigar-cg-array-not-u32-unreachable", "placeholder kSmN + CG:B whose raw bytes are not whole 32-bit words: Cigar::iter hits unreachable!()")
+        } else {
+            bad(&format!("lazy-accessor-panic-{}", panicked.join("+")), "on a body accepted by validate()")
+        }
+    } else {
+        Ok(())
+    };
+    Obs::ok(obs, validated).with_verdict(v)
+}
+
 fn run(c: &Case) -> Obs {
     match c.kind.as_str() {
+        "lz" => run_lz(c),
         "rec" => run_rec(c),
         "dec" => run_dec(c),
         "tab" => run_tab(c),
@@ -1684,15 +1807,21 @@ fn gen_overflow_span(rng: &mut Rng) -> (Spec, Option<String>) {
 
 /// mutated encodings of valid records for the decoder
 fn gen_dec(rng: &mut Rng, w: &mut CaseWriter) {
+    if let Some(body) = gen_dec_body(rng) {
+        w.push("dec", vec![hex(&body)]);
+    }
+}
+
+fn gen_dec_body(rng: &mut Rng) -> Option<Vec<u8>> {
     let (s, _) = gen_valid(rng);
     if reject_reason(&s).is_some() {
-        return;
+        return None;
     }
     let header = header_with(s.nref);
-    let Ok(block) = write_raw(&header, &to_record_buf(&s)) else { return };
+    let Ok(block) = write_raw(&header, &to_record_buf(&s)) else { return None };
     let mut body = block[4..].to_vec();
     if body.len() > 500 {
-        return;
+        return None;
     }
     match rng.below(10) {
         0 => {} // untouched
@@ -1729,13 +1858,18 @@ fn gen_dec(rng: &mut Rng, w: &mut CaseWriter) {
         }
     }
     if body.is_empty() {
-        return;
+        return None;
     }
-    w.push("dec", vec![hex(&body)]);
+    Some(body)
 }
 
 /// hand-made placeholder-shaped bodies: kS mN + CG of various types
 fn gen_dec_cg(rng: &mut Rng, w: &mut CaseWriter) {
+    let body = gen_dec_cg_body(rng);
+    w.push("dec", vec![hex(&body)]);
+}
+
+fn gen_dec_cg_body(rng: &mut Rng) -> Vec<u8> {
     let k = rng.range(0, 4) as usize;
     let mut s = Spec::default_unmapped();
     s.name = Some(b"q".to_vec());
@@ -1778,7 +1912,74 @@ fn gen_dec_cg(rng: &mut Rng, w: &mut CaseWriter) {
     if rng.chance(1, 3) {
         body.extend_from_slice(b"XXC\x07");
     }
-    w.push("dec", vec![hex(&body)]);
+    body
+}
+
+/// bodies for the lazy view: placeholder-shaped records whose data block is a random sequence of
+/// raw fields of every type (CG of every type/subtype and length among them, before or after other
+/// fields), optionally cut or extended
+fn gen_lz_cg_body(rng: &mut Rng) -> Vec<u8> {
+    let k = rng.range(0, 4) as usize;
+    let mut s = Spec::default_unmapped();
+    s.name = Some(b"q".to_vec());
+    s.cigar = if rng.chance(5, 6) { vec![(4, k), (3, rng.range(0, 50) as usize)] } else { vec![(4, k), (2, 3)] };
+    s.seq = gen_bases(rng, k);
+    let block = write_raw(&header_with(0), &to_record_buf(&s)).expect("write");
+    let mut body = block[4..].to_vec();
+    let n_fields = rng.range(1, 4);
+    let cg_at = rng.below(n_fields + 1);
+    for i in 0..n_fields {
+        if i == cg_at {
+            body.extend_from_slice(b"CG");
+        } else {
+            body.extend_from_slice(&[b'X', b'a' + i as u8]);
+        }
+        match rng.below(8) {
+            0..=3 => {
+                let st = *rng.pick(b"cCsSiIf");
+                let w = match st { b'c' | b'C' => 1, b's' | b'S' => 2, _ => 4 };
+                let n = rng.range(0, 5) as usize;
+                body.push(b'B');
+                body.push(if rng.chance(1, 12) { b'A' } else { st });
+                body.extend_from_slice(&(n as u32).to_le_bytes());
+                for _ in 0..n * w {
+                    let lim = if rng.chance(1, 8) { 256 } else { 9 };
+                    body.push(rng.below(lim) as u8);
+                }
+            }
+            4 => {
+                body.push(*rng.pick(b"ZH"));
+                body.extend_from_slice(b"4142");
+                if rng.chance(7, 8) {
+                    body.push(0);
+                }
+            }
+            5 => {
+                body.push(*rng.pick(b"AcCsSiIf"));
+                let n = rng.range(1, 4) as usize;
+                body.extend(rng.bytes(n));
+            }
+            6 => {
+                body.push(b'i');
+                body.extend(rng.bytes(4));
+            }
+            _ => {
+                body.push(*rng.pick(b"Bq\0"));
+            }
+        }
+    }
+    match rng.below(8) {
+        0 => {
+            let n = rng.below(body.len() as u64 + 1) as usize;
+            body.truncate(n);
+        }
+        1 => {
+            let n = rng.range(1, 3) as usize;
+            body.extend(rng.bytes(n));
+        }
+        _ => {}
+    }
+    body
 }
 
 fn generate(rng: &mut Rng, tier: &str, w: &mut CaseWriter) {
@@ -1830,6 +2031,18 @@ fn generate(rng: &mut Rng, tier: &str, w: &mut CaseWriter) {
             gen_dec_cg(rng, w);
         } else {
             gen_dec(rng, w);
+        }
+    }
+    // lazy views (appended last so that the cases above keep their ids and random draws)
+    let n_lz = if thorough { 60000 } else { 1500 };
+    for i in 0..n_lz {
+        let body = match i % 6 {
+            0 | 1 => Some(gen_lz_cg_body(rng)),
+            2 => Some(gen_dec_cg_body(rng)),
+            _ => gen_dec_body(rng),
+        };
+        if let Some(body) = body {
+            w.push("lz", vec![hex(&body)]);
         }
     }
 }
